@@ -27,15 +27,21 @@ EXTENDS Naturals, Integers, Sequences, FiniteSets, TLC, Json, IOUtils
 
 Lines == ndJsonDeserialize(IOEnv.TRACE)
 
-VARIABLES l, recs, pend, acked
+VARIABLES l, recs, pend, acked,
+          ord,    \* blob id |-> position in the storage's blob order (the order of becoming the active blob)
+          nord    \* next position
 
 E == Lines[l]
 
 Res(t, n) == [t |-> t, n |-> n]
 
-\* rank: greatest timestamp, then most recently created blob, then most recently appended
+\* rank: greatest timestamp, then the blob that is later in the storage's blob order, then most recently appended.
+\* The blob order is the order of activation; it is the order of the ids except when the worker installs a blob whose
+\* file it had created before a client created (and later closed or lost to this replacement) a newer one. A new
+\* session orders the blobs by id again (`reopen`).
+Pos(b) == IF b \in DOMAIN ord THEN ord[b] ELSE b
 Above(x, y) == \/ x.ts > y.ts
-               \/ x.ts = y.ts /\ x.b > y.b
+               \/ x.ts = y.ts /\ Pos(x.b) > Pos(y.b)
                \/ x.ts = y.ts /\ x.b = y.b /\ x.off > y.off
 Top(rs, k) == LET own == {r \in rs : r.k = k} IN
               IF own = {} THEN [none |-> TRUE]
@@ -67,12 +73,12 @@ Explained(p, rt, rn) ==
     [] OTHER -> FALSE
 
 Consume ==
-  CASE E.ev = "reset" -> recs' = {} /\ pend' = [x \in {} |-> 0] /\ acked' = {}
+  CASE E.ev = "reset" -> recs' = {} /\ pend' = [x \in {} |-> 0] /\ acked' = {} /\ ord' = [x \in {} |-> 0] /\ nord' = 0
     [] E.ev = "inv" ->
          /\ E.opid \notin DOMAIN pend
          /\ pend' = pend @@ (E.opid :> [op |-> E.op, k |-> E.k, ts |-> E.ts, commits |-> 0,
                                         floor |-> IF IsQuery(E.op) THEN Floor(E.k) ELSE NoFloor])
-         /\ UNCHANGED <<recs, acked>>
+         /\ UNCHANGED <<recs, acked, ord, nord>>
     [] E.ev = "commit" ->
          \* belongs to a pending mutation of the same key / timestamp / kind, at a fresh position
          /\ E.opid \in DOMAIN pend
@@ -82,7 +88,7 @@ Consume ==
          /\ LET nr == recs \cup {[k |-> E.k, ts |-> E.ts, del |-> E.del = 1, v |-> E.opid, b |-> E.b, off |-> E.off]} IN
             /\ recs' = nr
             /\ pend' = [pend EXCEPT ![E.opid].commits = @ + 1]
-            /\ UNCHANGED acked
+            /\ UNCHANGED <<acked, ord, nord>>
     [] E.ev = "resp" ->
          /\ E.opid \in DOMAIN pend
          /\ LET p == pend[E.opid] IN
@@ -92,16 +98,23 @@ Consume ==
               [] OTHER -> FALSE
          /\ pend' = [o \in DOMAIN pend \ {E.opid} |-> pend[o]]
          /\ acked' = acked \cup {E.opid}
-         /\ UNCHANGED recs
+         /\ UNCHANGED <<recs, ord, nord>>
     [] E.ev = "final" ->   \* quiescence: nothing pending, the storage answers like the reference store
          /\ DOMAIN pend = {}
          /\ Res(E.rt, E.rn) = RefRes(recs, E.k, E.op)
+         /\ UNCHANGED <<recs, pend, acked, ord, nord>>
+    [] E.ev = "activate" ->
+         /\ ord' = [b \in DOMAIN ord \cup {E.b} |-> IF b = E.b THEN nord ELSE ord[b]] /\ nord' = nord + 1
          /\ UNCHANGED <<recs, pend, acked>>
-    [] OTHER -> UNCHANGED <<recs, pend, acked>>
+    [] E.ev = "reopen" ->
+         /\ ord' = [b \in DOMAIN ord |-> b]
+         /\ nord' = (IF DOMAIN ord = {} THEN 0 ELSE (CHOOSE m \in DOMAIN ord : \A x \in DOMAIN ord : x <= m) + 1)
+         /\ UNCHANGED <<recs, pend, acked>>
+    [] OTHER -> UNCHANGED <<recs, pend, acked, ord, nord>>
 
-TraceInit == l = 1 /\ recs = {} /\ pend = [x \in {} |-> 0] /\ acked = {}
+TraceInit == l = 1 /\ recs = {} /\ pend = [x \in {} |-> 0] /\ acked = {} /\ ord = [x \in {} |-> 0] /\ nord = 0
 TraceNext == l <= Len(Lines) /\ l' = l + 1 /\ Consume
-TraceSpec == TraceInit /\ [][TraceNext]_<<l, recs, pend, acked>>
+TraceSpec == TraceInit /\ [][TraceNext]_<<l, recs, pend, acked, ord, nord>>
 
 TraceAccepted ==
   LET d == TLCGet("stats").diameter IN
